@@ -9,7 +9,7 @@ def ns(k):
 
 
 def gen(ctx, family, form, n, n2, **kw):
-    c = dict(MaxN=7, Whats=ALLW, MaxExtra=0, MaxOver=1, Ops='{"vector"}', Ns=n, MaxAnom=1, Ns2=n2, NsPerm="{}",
+    c = dict(MaxN=7, Whats=ALLW, MaxExtra=0, MaxOver=1, MinN=1, Ops='{"vector"}', Ns=n, MaxAnom=1, Ns2=n2, NsPerm="{}",
              Family='"%s"' % family, Form='"%s"' % form)
     return ctx.behaviours("cert", "Gen_QuorumCert", "Gen_QuorumCert.cfg", constants=c, timeout=900, **kw)
 
@@ -28,7 +28,7 @@ def run(ctx):
         for cst in runs:
             r = ctx.model_check("cert", "MC_QuorumCert", "MC_QuorumCert_vector.cfg", constants=cst,
                                 coverage=True, timeout=ctx.pick(600, 1800))
-            ctx.check_coverage(r, ["AddPart", "VerifyPart", "VerifyProof"], allow_zero=("AppendItem", "VerifyList"))
+            ctx.check_coverage(r, ["AddPart", "VerifyPart", "VerifyProof", "NewPart", "DecodeGarbage"], allow_zero=("AppendItem", "VerifyList", "DecodeGarbageList"))
         ctx.exhaustive = True
         # 2. decision table: every subset of own-index signatures for n = 1..7 with <= 1 anomalous slot
         #    (wrong index, non-validator, other decision, forged, unrecoverable), <= 2 for n <= 3/5; proofs of every
